@@ -22,6 +22,7 @@ def clock_stub(e, not_before=None):
     """environment: the clock returns an arbitrary instant, a fresh one per call (Timestamp::now is SystemTime::now behind a conversion);
     with `not_before`, no reading is earlier than that instant (a source date lies in the past)"""
     e._now_n = 0
+    del intrinsics3.ENCODERS[:]
 
     def now(ex, args, f):
         ex._now_n += 1
@@ -128,6 +129,20 @@ def _env_vars(exprs):
                 out[n] = x
         stack.extend(x.children())
     return out
+
+
+def compression_value(e, comp, zstd_documented_range=True):
+    """CompressionWithLevel value for 'none' | 'gzip' | 'xz' | 'bzip2' | 'zstd' with a symbolic level inside the range Compressor::try_from accepts"""
+    if comp in (None, "none"):
+        return Adt("CompressionWithLevel", "None")
+    lv = z3.BitVec("compression_level", 32)
+    if comp in ("gzip", "xz"):
+        e.solver.add(z3.ULE(lv, 9))
+    elif comp == "bzip2":
+        e.solver.add(z3.UGE(lv, 1), z3.ULE(lv, 9))
+    elif comp == "zstd" and zstd_documented_range:
+        e.solver.add(lv >= 1, lv <= 22)
+    return Adt("CompressionWithLevel", comp.capitalize(), [Int(lv, "i32" if comp == "zstd" else "u32")])
 
 
 def c11_repro(ctx, owners, sym_owner_chars=0, dests=None, late_source_date=False):
@@ -299,7 +314,7 @@ def scenario(name):
     """(files, setters, caps) of a named builder scenario; files: (destination, user, group, caps text or None)"""
     if name == "empty":
         return [], [], None
-    if name == "files2":
+    if name == "files2" or name.startswith("files2_"):
         return [(b"/d/f0", b"root", b"root", None), (b"/e/f1", b"u", b"g", None)], [], None
     if name == "utf8name":
         # a file name with multi-byte UTF-8 characters (literal): byte lengths and character counts differ
@@ -396,7 +411,7 @@ def c09_build(ctx, name):
         add = ctx.impl_fn("add_data", None, "PackageBuilder")
         clock_stub(e)
         b = builder_new(ctx, e)
-        b = e.call_fn(comp, [b, Adt("CompressionWithLevel", "None")])
+        b = e.call_fn(comp, [b, compression_value(e, name.split("_", 1)[1] if name.startswith("files2_") else "none")])
         for sn, args in setters:
             b = e.call_fn(ctx.impl_fn(sn, None, "PackageBuilder"), [b] + list(args))
         cell = Cell(b)
@@ -417,6 +432,8 @@ def c09_build(ctx, name):
         r, bs = v
         ctx.cover("package built", r.variant == "Ok")
         if r.variant != "Ok":
+            if name.endswith("_zstd"):
+                return          # the zstd encoder constructor returns io::Result: an error (not a panic) is within the property
             ctx.fail("building a valid configuration fails", "PackageBuilder::build", kind="c09build", scenario=name)
             return
         pkg = r.fields[0]
@@ -438,7 +455,24 @@ def c09_build(ctx, name):
                 return
         # the payload: a well-formed newc archive whose entries are the header's files, in header order, with matching names, sizes and modes,
         # 4-byte alignment and a trailer (uncompressed here)
-        why = check_cpio(e, as_bytes(e, pkg.fields[1]), hdr)
+        cname = name.split("_", 1)[1] if name.startswith("files2_") else None
+        payload = as_bytes(e, pkg.fields[1])
+        if cname:
+            # compressed with the algorithm the header names; what was compressed is the archive; zstd needs its rpmlib() feature
+            if len(intrinsics3.ENCODERS) != 1 or intrinsics3.ENCODERS[0][0] != cname or not all(a.eq(b_) for a, b_ in zip(payload, intrinsics3.ENCODERS[0][3])):
+                ctx.fail("the payload is not the output of one %s encoder" % cname, "PackageBuilder::build", kind="c09build", scenario=name)
+                return
+            pc = tags.get(tag("RPMTAG_PAYLOADCOMPRESSOR"))
+            if pc is None or bytes(z3.simplify(b_).as_long() for b_ in pc.fields[1].fields[0].bytes()) != cname.encode():
+                ctx.fail("the header does not name the compressor (%s) that produced the payload" % cname, "PackageBuilder::build", kind="c09build", scenario=name)
+                return
+            req = tags.get(tag("RPMTAG_REQUIRENAME"))
+            names = [bytes(z3.simplify(b_).as_long() for b_ in x.bytes()) for x in req.fields[1].fields[0].items] if req is not None else []
+            if cname == "zstd" and b"rpmlib(PayloadIsZstd)" not in names:
+                ctx.fail("a zstd payload without rpmlib(PayloadIsZstd)", "PackageBuilder::build", kind="c09build", scenario=name)
+                return
+            payload = intrinsics3.ENCODERS[0][2]
+        why = check_cpio(e, payload, hdr)
         if why:
             ctx.fail("the payload of the built package is not the cpio archive the header describes: " + why, "PackageBuilder::build", kind="c09build", scenario=name)
             return
@@ -467,11 +501,25 @@ def replay_c09build(ctx, fl):
         why = "file capabilities without rpmlib(FileCaps)"
     if why is None:
         ents, st, hlen = RB.parse_header_entries(hdr)
-        why = RB.check_cpio_bytes(hdr[hlen:], ents, st)
+        comp = RB.header_strings(ents, st, 1125)                  # RPMTAG_PAYLOADCOMPRESSOR
+        payload = hdr[hlen:]
+        want = fl["scenario"].split("_", 1)[1] if fl["scenario"].startswith("files2_") else None
+        if want and comp != [want.encode()]:
+            why = "the header names the compressor %s, the scenario compresses with %s" % (comp, want)
+        elif want:
+            import bz2, gzip, lzma
+            try:
+                payload = {"gzip": gzip.decompress, "xz": lzma.decompress, "bzip2": bz2.decompress}.get(want, lambda x: None)(payload)
+            except Exception as ex_:  # noqa: BLE001
+                why = "the payload is not a %s stream (%s)" % (want, type(ex_).__name__)
+            if want == "zstd" and b"rpmlib(PayloadIsZstd)" not in hdr:
+                why = "a zstd payload without rpmlib(PayloadIsZstd)"
+        if why is None and payload is not None:
+            why = RB.check_cpio_bytes(payload, ents, st)
     return why is not None, "real crate: scenario %s built through the public API: %s" % (fl["scenario"], why or "structurally valid")
 
 
-for _sn in ("empty", "files2", "utf8name", "scriptlets", "scriptlets_plain", "deps", "caps_first", "caps_last") + tuple("dep_" + k for k in DEP_SETTERS):
+for _sn in ("empty", "files2", "files2_gzip", "files2_xz", "files2_bzip2", "files2_zstd", "utf8name", "scriptlets", "scriptlets_plain", "deps", "caps_first", "caps_last") + tuple("dep_" + k for k in DEP_SETTERS):
     HARNESSES["c09_build_" + _sn] = (lambda n: (lambda ctx: c09_build(ctx, n)))(_sn)
 REPLAYERS["c09"] = (lambda prev: (lambda ctx, fl: replay_c09build(ctx, fl) if fl.get("kind") == "c09build" else prev(ctx, fl)))(REPLAYERS["c09"])
 
@@ -762,11 +810,11 @@ HARNESSES["c06_files_2"] = lambda ctx: c06_files(ctx, 2)
 # ---------------------------------------------------------------------------------------------------------
 # C07 (partial): Package::files() of a package built by this library yields every file's exact content under its own metadata
 # ---------------------------------------------------------------------------------------------------------
-def c07_roundtrip(ctx, sizes):
+def c07_roundtrip(ctx, sizes, comp="none"):
     ex = Exec(ctx.funcs, intrinsics.I, max_steps=8000000)
     ctx.stats = ex.stats
-    ctx.bounds = ("files of %s symbolic content bytes at /d/f<i> (in that order of insertion: reversed), no compression: PackageBuilder .. build() then Package::files() and FileIterator::next, all from MIR "
-                  "(cpio writer and cpio reader included)" % "/".join(map(str, sizes)))
+    ctx.bounds = ("files of %s symbolic content bytes at /d/f<i> (in that order of insertion: reversed), compression %s: PackageBuilder .. build() then Package::files() and FileIterator::next, all from MIR "
+                  "(cpio writer and cpio reader included)" % ("/".join(map(str, sizes)), comp if comp == "none" else comp + " (compressor = uninterpreted function of level and input, decompressor = its inverse)"))
     from intrinsics2 import uf_digest
     from harnesses_pkg import hexchars
 
@@ -776,12 +824,14 @@ def c07_roundtrip(ctx, sizes):
     def body(e, inp):
         clock_stub(e)
         b = builder_new(ctx, e)
-        b = e.call_fn(ctx.impl_fn("compression", None, "PackageBuilder"), [b, Adt("CompressionWithLevel", "None")])
+        b = e.call_fn(ctx.impl_fn("compression", None, "PackageBuilder"), [b, compression_value(e, comp)])
         cell = Cell(b)
         for i in reversed(range(len(sizes))):
             r = e.call_fn(ctx.impl_fn("add_data", None, "PackageBuilder"), [Ref(cell), VecV([Int(x, "u8") for x in inp[i]]), Adt("Timestamp", "Timestamp", [Int(5, "u32")]), file_options(b"/d/f%d" % i)])
             assert r.variant == "Ok"
         r = e.call_fn(ctx.impl_fn("build", None, "PackageBuilder"), [cell.v])
+        if r.variant != "Ok":
+            return r, None, []
         pkg = r.fields[0]
         it = e.call_fn(ctx.impl_fn("files", None, "Package"), [Ref(Cell(pkg))])
         if it.variant != "Ok":
@@ -803,8 +853,10 @@ def c07_roundtrip(ctx, sizes):
             return
         r, it, outs = v
         ctx.cover("package built", r.variant == "Ok")
+        if r.variant != "Ok":
+            return
         if it.variant != "Ok" or len(outs) != len(sizes) or any(o.variant != "Ok" for o in outs):
-            ctx.fail("iterating the payload of a freshly built package fails or yields %d entries for %d files" % (len(outs), len(sizes)), "Package::files", kind="c07", sizes=list(sizes))
+            ctx.fail("iterating the payload of a freshly built package fails or yields %d entries for %d files" % (len(outs), len(sizes)), "Package::files", kind="c07", sizes=list(sizes), comp=comp)
             return
         for i, o in enumerate(outs):                      # ordered by path: /d/f0, /d/f1, ...
             rf = o.fields[0]
@@ -819,19 +871,21 @@ def c07_roundtrip(ctx, sizes):
             elif fe.fields[6].variant != "Some" or e._check(z3.Not(_eq_str(e, fe.fields[6].fields[0].fields[0], Str(hexchars(uf_digest("sha256", list(inp[i]))))))):
                 bad = "recorded digest"
             if bad:
-                ctx.fail("payload iteration pairs entry %d with the wrong %s" % (i, bad), "Package::files", kind="c07", sizes=list(sizes))
+                ctx.fail("payload iteration pairs entry %d with the wrong %s" % (i, bad), "Package::files", kind="c07", sizes=list(sizes), comp=comp)
                 return
     ex.run_all(setup, body, on_path)
 
 
 def replay_c07(ctx, fl):
-    ans = ctx.native.ask("files_rt", ",".join(str(x) for x in fl.get("sizes", [])))
+    ans = ctx.native.ask("files_rt", ",".join(str(x) for x in fl.get("sizes", [])), fl.get("comp") or "none")
     return not ans.startswith("same"), "real crate: files of those sizes built and iterated with Package::files() -> " + ans[:120]
 
 
 REPLAYERS["c07"] = replay_c07
 for _sz in ((0,), (1,), (3,), (4,), (5,), (2, 3), (4, 0), (1, 2, 3)):
     HARNESSES["c07_rt_" + "_".join(map(str, _sz))] = (lambda sz: (lambda ctx: c07_roundtrip(ctx, sz)))(_sz)
+for _cp in ("gzip", "xz", "bzip2", "zstd"):
+    HARNESSES["c07_rt_%s_3_2" % _cp] = (lambda cp: (lambda ctx: c07_roundtrip(ctx, (3, 2), cp)))(_cp)
 
 
 def c06_with_file(ctx, explicit_mode):
@@ -1163,11 +1217,11 @@ HARNESSES["c06_fileopts_flags"] = c06_fileopts_flags
 # ---------------------------------------------------------------------------------------------------------
 # C08 (builder part): every digest the builder records is the digest of the bytes it names (digests as uninterpreted functions)
 # ---------------------------------------------------------------------------------------------------------
-def c08_build(ctx, sizes):
+def c08_build(ctx, sizes, comp="none"):
     ex = Exec(ctx.funcs, intrinsics.I, max_steps=8000000)
     ctx.stats = ex.stats
-    ctx.bounds = ("PackageBuilder .. build() from MIR with files of %s symbolic content bytes, no compression; SHA-256 as an uninterpreted function of the exact bytes hashed: header digest in the signature header, "
-                  "payload digest, alternate payload digest, per-file digests" % ("/".join(map(str, sizes)) or "no"))
+    ctx.bounds = ("PackageBuilder .. build() from MIR with files of %s symbolic content bytes, compression %s; SHA-256 as an uninterpreted function of the exact bytes hashed: header digest in the signature header, "
+                  "payload digest, alternate payload digest, per-file digests" % ("/".join(map(str, sizes)) or "no", comp if comp == "none" else comp + " (level symbolic within the accepted range; the compressor is an uninterpreted function of level and input)"))
     from intrinsics2 import uf_digest
     from harnesses_pkg import hexchars
     from rpmvals import tag, sigtag
@@ -1178,12 +1232,14 @@ def c08_build(ctx, sizes):
     def body(e, inp):
         clock_stub(e)
         b = builder_new(ctx, e)
-        b = e.call_fn(ctx.impl_fn("compression", None, "PackageBuilder"), [b, Adt("CompressionWithLevel", "None")])
+        b = e.call_fn(ctx.impl_fn("compression", None, "PackageBuilder"), [b, compression_value(e, comp, zstd_documented_range=False)])
         cell = Cell(b)
         for i in range(len(sizes)):
             r = e.call_fn(ctx.impl_fn("add_data", None, "PackageBuilder"), [Ref(cell), VecV([Int(x, "u8") for x in inp[i]]), Adt("Timestamp", "Timestamp", [Int(5, "u32")]), file_options(b"/d/f%d" % i)])
             assert r.variant == "Ok"
         r = e.call_fn(ctx.impl_fn("build", None, "PackageBuilder"), [cell.v])
+        if r.variant != "Ok":
+            return r, None
         pkg = r.fields[0]
         hb = VecV([])
         w = e.call_fn(ctx.impl_fn("write", None, "Header"), [Ref(Cell(pkg.fields[0].fields[2])), Ref(Cell(hb))])
@@ -1197,8 +1253,19 @@ def c08_build(ctx, sizes):
             return
         r, hb = v
         ctx.cover("package built", r.variant == "Ok")
+        if r.variant != "Ok":
+            return                                   # zstd may refuse to construct an encoder (io::Result): an error, not a panic
         pkg = r.fields[0]
         meta, content = pkg.fields[0], as_bytes(e, pkg.fields[1])
+        archive = content
+        if comp != "none":
+            if len(intrinsics3.ENCODERS) != 1 or intrinsics3.ENCODERS[0][0] != comp:
+                ctx.fail("the payload was not produced by exactly one %s encoder" % comp, "PackageBuilder::build", kind="c08b", sizes=list(sizes), what="compressor", comp=comp)
+                return
+            archive = intrinsics3.ENCODERS[0][2]
+            if len(content) != len(intrinsics3.ENCODERS[0][3]) or not all(a.eq(b_) for a, b_ in zip(content, intrinsics3.ENCODERS[0][3])):
+                ctx.fail("the package content is not the encoder's output", "PackageBuilder::build", kind="c08b", sizes=list(sizes), what="content", comp=comp)
+                return
         sig = {ent.fields[0].conc(): ent.fields[1] for ent in meta.fields[1].fields[1].items}
         hdr = {ent.fields[0].conc(): ent.fields[1] for ent in meta.fields[2].fields[1].items}
 
@@ -1210,7 +1277,10 @@ def c08_build(ctx, sizes):
         d = hdr.get(tag("RPMTAG_PAYLOADDIGEST"))
         checks.append(("payload digest", d is not None and len(d.fields[0].items) == 1 and not e._check(z3.Not(_eq_str(e, d.fields[0].items[0], hexof(content))))))
         d = hdr.get(tag("RPMTAG_PAYLOADDIGESTALT"))
-        checks.append(("alternate payload digest (uncompressed archive; no compression here)", d is not None and len(d.fields[0].items) == 1 and not e._check(z3.Not(_eq_str(e, d.fields[0].items[0], hexof(content))))))
+        checks.append(("alternate payload digest (SHA-256 of the uncompressed archive)", d is not None and len(d.fields[0].items) == 1 and not e._check(z3.Not(_eq_str(e, d.fields[0].items[0], hexof(archive))))))
+        d = hdr.get(tag("RPMTAG_PAYLOADCOMPRESSOR"))
+        if comp != "none":
+            checks.append(("payload compressor name", d is not None and not e._check(z3.Not(_eq_str(e, d.fields[0], Str.lit(comp.encode()))))))
         d = hdr.get(tag("RPMTAG_PAYLOADDIGESTALGO"))
         checks.append(("payload digest algorithm id (SHA-256 = 8)", d is not None and not e._check(d.fields[0].items[0].e != 8)))
         if sizes:
@@ -1221,19 +1291,21 @@ def c08_build(ctx, sizes):
             checks.append(("file digest algorithm id", d is not None and not e._check(d.fields[0].items[0].e != 8)))
         for what, good in checks:
             if not good:
-                ctx.fail("the built package records a wrong %s" % what, "PackageBuilder::build", kind="c08b", sizes=list(sizes), what=what)
+                ctx.fail("the built package records a wrong %s" % what, "PackageBuilder::build", kind="c08b", sizes=list(sizes), what=what, comp=comp)
                 return
     ex.run_all(setup, body, on_path)
 
 
 def replay_c08b(ctx, fl):
-    ans = ctx.native.ask("build_digests", ",".join(str(x) for x in fl.get("sizes", [])) or "-")
+    ans = ctx.native.ask("build_digests", ",".join(str(x) for x in fl.get("sizes", [])) or "-", fl.get("comp") or "none")
     return not ans.startswith("same"), "real crate: package with files of those sizes built through the public API, recorded digests vs recomputed ones -> " + ans[:120]
 
 
 REPLAYERS["c08"] = (lambda prev: (lambda ctx, fl: replay_c08b(ctx, fl) if fl.get("kind") == "c08b" else prev(ctx, fl)))(REPLAYERS["c08"])
 for _sz in ((), (1,), (0, 3), (2, 1, 4)):
     HARNESSES["c08_build_" + ("_".join(map(str, _sz)) or "empty")] = (lambda sz: (lambda ctx: c08_build(ctx, sz)))(_sz)
+for _cp in ("gzip", "xz", "bzip2", "zstd"):
+    HARNESSES["c08_build_%s_2_1" % _cp] = (lambda cp: (lambda ctx: c08_build(ctx, (2, 1), cp)))(_cp)
 
 
 def built_package_checks(ctx, sizes, which):
